@@ -14,6 +14,51 @@ static const uint64_t PR = ref::PR;
 static std::string hx(uint64_t x) { char b[32]; snprintf(b, sizeof b, "0x%016llx", (unsigned long long)x); return b; }
 static uint64_t other_rep(uint64_t a) { return a >= PR ? a - PR : (a < 0xFFFFFFFFull ? a + PR : a); }
 
+// ---- calls made DURING STATIC INITIALISATION (this translation unit is first on the link line: its initialisers run before the library's) ----
+static const uint64_t EARLY_V[] = {5, 0, 1, PR - 1, PR, PR + 1, 0x80000000ull, 0x7FFFFFFFull, (PR - 1) / 2, (PR - 1) / 2 + 1, PR - 0x80000000ull, PR - 0x80000001ull, 0xFFFFFFFFFFFFFFFFull, 1234567};
+struct EarlyProbe {
+    int64_t s64[14]; int32_t s32[14]; bool ok32[14], one[14], zero[14], neg1[14], eq[14]; uint64_t inv[14], fs64, fs32, fstr, fbig, dv, ex; std::string str[14];
+    bool skipped = false;
+    EarlyProbe() {
+        if (getenv("PBT_NO_EARLY")) { skipped = true; return; } // (cold-start jobs and the re-executed refusal child: nothing may run before the case)
+        for (int i = 0; i < 14; i++) { E e = {EARLY_V[i]}; s64[i] = Goldilocks::toS64(e); ok32[i] = Goldilocks::toS32(s32[i], e); one[i] = Goldilocks::isOne(e); zero[i] = Goldilocks::isZero(e); neg1[i] = Goldilocks::isNegone(e);
+            E o = {EARLY_V[i] >= PR ? EARLY_V[i] - PR : (EARLY_V[i] < 0xFFFFFFFFull ? EARLY_V[i] + PR : EARLY_V[i])}; eq[i] = Goldilocks::equal(e, o); str[i] = Goldilocks::toString(e, 10);
+            inv[i] = EARLY_V[i] % PR ? Goldilocks::toU64(Goldilocks::inv(e)) : 0; }
+        fs64 = Goldilocks::toU64(Goldilocks::fromS64(-7)); fs32 = Goldilocks::toU64(Goldilocks::fromS32(INT32_MIN)); fstr = Goldilocks::toU64(Goldilocks::fromString("-18446744069414584323", 10));
+        mpz_class z("36893488138829168642"); fbig = Goldilocks::toU64(Goldilocks::fromScalar(z));
+        E a = {0xFFFFFFFFFFFFFFFFull}, b = {PR + 2}; dv = Goldilocks::toU64(a / b); ex = Goldilocks::toU64(Goldilocks::exp(b, 0xFFFFFFFF00000000ull));
+    }
+};
+static EarlyProbe g_early;
+static uint64_t early_floormod(const char *dec) { mpz_class z(dec), m, P("18446744069414584321"); mpz_fdiv_r(m.get_mpz_t(), z.get_mpz_t(), P.get_mpz_t()); uint64_t out = 0; size_t cnt = 0; mpz_export(&out, &cnt, 1, 8, 0, 0, m.get_mpz_t()); return cnt ? out : 0; }
+static bool body_static_init_c15(const Case &, Ctx &ctx)
+{
+    if (g_early.skipped) { ctx.cls("context:static-initialisation-probe-switched-off"); return true; }
+    ctx.nt("context:called-during-static-initialisation");
+    for (int i = 0; i < 14; i++) {
+        uint64_t v = EARLY_V[i] % PR; std::string at = " of " + hx(EARLY_V[i]) + " called during static initialisation (before main)";
+        int64_t w64 = v <= (PR - 1) / 2 ? (int64_t)v : -(int64_t)(PR - v);
+        if (g_early.s64[i] != w64) return ctx.fail("toS64" + at + " returned " + std::to_string(g_early.s64[i]) + ", want " + std::to_string(w64));
+        bool in32 = w64 >= INT32_MIN && w64 <= INT32_MAX;
+        if (g_early.ok32[i] != in32) return ctx.fail("toS32" + at + " reported " + (g_early.ok32[i] ? "success" : "failure"));
+        if (in32 && g_early.s32[i] != (int32_t)w64) return ctx.fail("toS32" + at + " returned " + std::to_string(g_early.s32[i]) + ", want " + std::to_string(w64));
+        if (g_early.one[i] != (v == 1) || g_early.zero[i] != (v == 0) || g_early.neg1[i] != (v == PR - 1) || !g_early.eq[i]) return ctx.fail("a predicate (isOne / isZero / isNegone / equal)" + at + " is wrong");
+        if (g_early.str[i] != std::to_string((unsigned long long)v)) return ctx.fail("toString" + at + " returned '" + g_early.str[i] + "'");
+    }
+    if (g_early.fs64 != PR - 7 || g_early.fs32 != PR - 0x80000000ull) return ctx.fail("fromS64 / fromS32 called during static initialisation returned a wrong residue");
+    if (g_early.fstr != early_floormod("-18446744069414584323") || g_early.fbig != early_floormod("36893488138829168642")) return ctx.fail("fromString / fromScalar called during static initialisation returned a wrong residue");
+    return true;
+}
+static bool body_static_init_c10(const Case &, Ctx &ctx)
+{
+    if (g_early.skipped) { ctx.cls("context:static-initialisation-probe-switched-off"); return true; }
+    ctx.nt("context:called-during-static-initialisation");
+    for (int i = 0; i < 14; i++) if (EARLY_V[i] % PR && ref::mul(g_early.inv[i], EARLY_V[i]) != 1) return ctx.fail("inv(" + hx(EARLY_V[i]) + ") called during static initialisation (before main) returned " + hx(g_early.inv[i]));
+    if (g_early.dv != ref::mul(0xFFFFFFFFFFFFFFFFull % PR, ref::inv(2))) return ctx.fail("div called during static initialisation returned " + hx(g_early.dv));
+    if (g_early.ex != ref::pw(2, 0xFFFFFFFF00000000ull)) return ctx.fail("exp called during static initialisation returned " + hx(g_early.ex));
+    return true;
+}
+
 // ---- C10 ------------------------------------------------------------------------------------
 // payload [a]
 static bool body_inv(const Case &c, Ctx &ctx)
@@ -98,6 +143,7 @@ static bool body_refuse_zero(const Case &c, Ctx &ctx)
         if ((c.v[0] / 5) % 2 == 1) {
             // a fresh process image: the refused inversion is the very first inversion this process (and thread) makes
             char w[8], xs[32]; snprintf(w, sizeof w, "%d", which); snprintf(xs, sizeof xs, "%llu", (unsigned long long)(c.v.size() > 1 ? c.v[1] : 5));
+            setenv("PBT_NO_EARLY", "1", 1);
             execl("/proc/self/exe", "h_scalar2", "--refuse-child", w, xs, (char *)nullptr);
             _exit(0);
         }
@@ -127,6 +173,7 @@ static rc::Gen<uint64_t> gen_euclid()
     // operands that drive the Euclidean algorithm through extreme quotient patterns
     return rc::gen::weightedOneOf<uint64_t>({
         {4, g::fe()},
+        {1, g::range(1, 5000)},                                                                        // small operands (what a table of small inverses would serve)
         {2, rc::gen::apply([](uint64_t q, int up) { if (q < 2) q = 2; return PR / q + (uint64_t)up; }, rc::gen::weightedOneOf<uint64_t>({{2, g::hilo()}, {2, g::range(2, 70000)}, {1, g::fe()}}), g::irange(0, 1))},
         {2, rc::gen::map(g::range(0, 16), [](uint64_t d) { return (uint64_t)(((u128)PR * 0x9E3779B97F4A7C15ull) >> 64) + d - 8; })}, // p/phi: all-ones quotients, longest chains
         {1, rc::gen::map(g::irange(0, 63), [](int k) { return (uint64_t)1 << k; })},
@@ -197,6 +244,11 @@ static bool body_to_int(const Case &c, Ctx &ctx)
     // toString in a radix, against an own digit routine
     int radix = 2 + (int)(c.v[1] % 35);
     std::string want; { uint64_t t = cv; if (!t) want = "0"; while (t) { int d = (int)(t % radix); want.insert(want.begin(), (char)(d < 10 ? '0' + d : 'a' + d - 10)); t /= radix; } }
+    // now and then the application has installed a global C++ locale that groups digits ("1,234,567"): conversions must not pick that up
+    struct Grouping : std::numpunct<char> { char do_thousands_sep() const override { return ','; } std::string do_grouping() const override { return "\3"; } };
+    struct LocaleGuard { std::locale saved; bool on; LocaleGuard(bool o) : on(o) { if (on) saved = std::locale::global(std::locale(std::locale::classic(), new Grouping)); } ~LocaleGuard() { if (on) std::locale::global(saved); } };
+    LocaleGuard lg(((c.v[2] >> 8) & 3) == 1 && !pbt::in_concurrent());
+    if (lg.on) ctx.nt("to:global-locale-with-digit-grouping-installed");
     std::string got = Goldilocks::toString(e, radix);
     if (got != want) return ctx.fail("toString(" + hx(v) + ", radix " + std::to_string(radix) + ") = '" + got + "' want '" + want + "'");
     // output-parameter form: the destination string is reused by callers, so it is NOT empty before the call
@@ -297,6 +349,8 @@ int main(int argc, char **argv)
         {"c10.exp", [] { return rc::gen::apply([](uint64_t b, uint64_t e) { return std::vector<uint64_t>{b, e}; }, g::fe(),
                                                 rc::gen::weightedOneOf<uint64_t>({{2, g::elem({0, 1, 2, 3, PR - 1, PR - 2, PR, UINT64_MAX, UINT64_MAX - 1, 7, 0x100000000ull})}, {2, rc::gen::map(g::irange(0, 63), [](int k) { return (uint64_t)1 << k; })},
                                                                                   {1, rc::gen::map(g::irange(1, 64), [](int k) { return (uint64_t)(k == 64 ? UINT64_MAX : ((uint64_t)1 << k) - 1); })}, {3, g::uni64()}, {1, g::range(0, 300)}})); }, body_exp, 2, false, desc_simple, 100},
+        {"c10.static_init", [] { return rc::gen::just(std::vector<uint64_t>{0}); }, body_static_init_c10, 0.0001, false, nullptr, 100},
+        {"c15.static_init", [] { return rc::gen::just(std::vector<uint64_t>{0}); }, body_static_init_c15, 0.0001, false, nullptr, 100},
         {"c10.refuse_zero", [] { return rc::gen::apply([](int w, uint64_t x) { return std::vector<uint64_t>{(uint64_t)w, x}; }, g::irange(0, 9), g::fe()); }, body_refuse_zero, 0.002, false, desc_simple, 100},
         {"c15.from_int", [] { return rc::gen::apply([](uint64_t x, int w) { return std::vector<uint64_t>{x, (uint64_t)w}; },
                                                      rc::gen::weightedOneOf<uint64_t>({{3, g::fe()}, {2, g::elem({(uint64_t)INT64_MIN, (uint64_t)INT64_MAX, (uint64_t)INT64_MIN + 1, (uint64_t)(int64_t)INT32_MIN, (uint64_t)(int64_t)INT32_MAX, 0x80000000ull, 0x7FFFFFFFull, (uint64_t)-1, (uint64_t)-2, (PR - 1) / 2, (PR - 1) / 2 + 1, (uint64_t)0 - (PR - 1) / 2, (uint64_t)0 - (PR - 1) / 2 - 1, (uint64_t)0 - (PR - 1) / 2 + 1})},
@@ -306,5 +360,6 @@ int main(int argc, char **argv)
                                                    rc::gen::weightedOneOf<uint64_t>({{2, rc::gen::just<uint64_t>(8)}, {1, rc::gen::just<uint64_t>(14)}, {2, g::range(0, 34)}}), g::fe()); }, body_to_int, 3, false, desc_simple, 100},
         {"c15.from_big", [] { return gen_big(); }, body_from_big, 3, false, desc_big, 100},
     };
+    for (auto &p : props) if (p.name != "c10.refuse_zero" && p.name.find("static_init") == std::string::npos && p.name != "c15.to_int") p.mt_ok = true;
     return pbt::harness_main(argc, argv, "h_scalar2", props);
 }
